@@ -13,7 +13,8 @@
 import itertools
 
 from .. import core
-from ..ebb3drv import call, is_failure_value, new_object, operations
+from ..ebb3drv import (call, decoy_problem, is_failure_value, make_decoy, new_object,
+                       operations)
 from ..explore import Stats, explore, run_vector
 from ..fakeserial import EBB3Board, Profile
 
@@ -149,6 +150,7 @@ def run_method(chooser, op, profile=None, pre_ops=()):
     _label, method, args = op
     if profile is None:
         profile = DIRECT_PROFILE if method in DIRECT_METHODS else METH_PROFILE
+    decoy = make_decoy()
     obj, port, board = new_object(chooser, profile)
     port.tag = "pre:"
     for _l, pre_m, pre_a in pre_ops:
@@ -175,6 +177,9 @@ def run_method(chooser, op, profile=None, pre_ops=()):
         if obj.err is None and method not in ("reboot", "bootload"):
             viols.append((f"unrecorded:{ckey}", f"{where}: the exchange failed but no error was "
                           f"recorded (err is None)"))
+    leak = decoy_problem(decoy)
+    if leak:
+        viols.append((f"isolation:{method}", f"{where}: {leak}"))
     obs = (repr(ret), obj.err, type(exc).__name__ if exc else None, obj.name,
            tuple(w.decode() for w in port.write_attempts))
     return viols, obs, board.snapshot(), failing, port
